@@ -66,6 +66,15 @@ func c08Valid(r *rand.Rand) *cfg.Config {
 	for i := 0; i < 3; i++ {
 		c.Decorators = append(c.Decorators, cfg.Decorator{Tag: "t", Decorator: al() + ".DecSame", Args: []cfg.Val{cfg.Int(int64(i))}})
 	}
+	// keys that differ only by letter case, in every mapping (a comparator that folds case would tie on them)
+	c.Params = append(c.Params, cfg.KV{K: "P0", V: cfg.Str("upper")}, cfg.KV{K: "appName", V: cfg.Int(1)}, cfg.KV{K: "AppName", V: cfg.Int(2)}, cfg.KV{K: "APPNAME", V: cfg.Int(3)})
+	c.Meta.Imports = append(c.Meta.Imports, cfg.KS{K: "PA", V: "fixt/pb"}, cfg.KS{K: "Pa", V: "fixt/os"}, cfg.KS{K: "pA", V: "fixt/fmt"})
+	c.Meta.Functions = append(c.Meta.Functions, cfg.KS{K: "Fn0", V: "PA.Fn"}, cfg.KS{K: "FN0", V: "Pa.FnInt"})
+	for _, n := range []string{"S0", "mailer", "Mailer", "MAILER"} {
+		c.Services = append(c.Services, cfg.Service{Name: n, Constructor: cfg.P([]string{"PA", "Pa", "pA"}[r.Intn(3)] + ".New"),
+			Args:   []cfg.Val{cfg.Str("%AppName%"), cfg.Str("%appName%")},
+			Fields: []cfg.KV{{K: "F1", V: cfg.Int(1)}, {K: "f1", V: cfg.Int(2)}, {K: "Ff", V: cfg.Int(3)}, {K: "fF", V: cfg.Int(4)}, {K: "FF", V: cfg.Int(5)}, {K: "ff", V: cfg.Int(6)}}})
+	}
 	r.Shuffle(len(c.Services), func(i, j int) { c.Services[i], c.Services[j] = c.Services[j], c.Services[i] })
 	r.Shuffle(len(c.Params), func(i, j int) { c.Params[i], c.Params[j] = c.Params[j], c.Params[i] })
 	return c
@@ -81,6 +90,10 @@ func c08Invalid(r *rand.Rand, class int) *cfg.Config {
 			c.Meta.Functions = append(c.Meta.Functions, cfg.KS{K: fmt.Sprintf("bad-fn-%d", i), V: fmt.Sprintf("bad go fn %d()", i)})
 		}
 	case 1: // services and params grammar
+		for _, n := range []string{"bad name", "Bad name", "BAD name", "bad Name"} {
+			c.Services = append(c.Services, cfg.Service{Name: n, Value: cfg.P("X")})
+			c.Params = append(c.Params, cfg.KV{K: n + "..", V: cfg.Int(1)})
+		}
 		for i := 0; i < 7; i++ {
 			c.Services = append(c.Services, cfg.Service{Name: fmt.Sprintf("bad svc %d", i), Getter: cfg.P("1x"), Constructor: cfg.P("New()")})
 			c.Params = append(c.Params, cfg.KV{K: fmt.Sprintf("bad..p%d", i), V: cfg.Int(1)})
